@@ -8,7 +8,7 @@ run_one() {
   grep -q '"retired"' $d/meta.json && { echo "$n: retired"; return; }
   out=$(tools/mutant_run.sh $d/patch.diff $id $TIER 2>&1)
   rc=$?
-  v=$(echo "$out" | grep -E "^VIOLATION|^KNOWN-FINDING|^UNDECIDED|patch does not apply" | head -2 | cut -c1-160 | tr '\n' ';')
+  v=$(echo "$out" | grep -E "^VIOLATION|^UNDECIDED|patch does not apply|^KNOWN-FINDING" | sort -r | head -3 | cut -c1-160 | tr '\n' ';')
   echo "rc=$rc $v" > $d/verdict.txt
   echo "$n: rc=$rc $v"
 }
